@@ -188,6 +188,63 @@ pub fn judge(acc: &mut Acc, src: &str, nproc: usize, dir: &Path, origin: &str, o
             Err(e) => acc.infra(format!("printstages child (history): {e}")),
         }
     }
+    // the repository's own driver object caches stage results per file: the result of a stage must
+    // not depend on which other stages of the same file were requested before
+    if !driver_orders(acc, &file, src, origin) {
+        return false;
+    }
+    true
+}
+
+/// every (earlier stage, wanted stage) pair on a fresh `driver::Driver` against a fresh driver asked
+/// for the wanted stage directly
+fn driver_orders(acc: &mut Acc, file: &Path, src: &str, origin: &str) -> bool {
+    use printer::Print;
+    let path = file.to_path_buf();
+    let stage = |d: &mut driver::Driver, k: usize| -> Option<String> {
+        let r = crate::pipeline::guarded("driver", std::panic::AssertUnwindSafe(|| match k {
+            0 => d.compiled(&path).ok().map(|p| p.print_to_string(None)),
+            1 => d.focused(&path).ok().map(|p| p.print_to_string(None)),
+            2 => d.shrunk(&path).ok().map(|p| p.print_to_string(None)),
+            _ => d.linearized(&path).ok().map(|p| p.print_to_string(None)),
+        }));
+        r.ok().flatten()
+    };
+    const NAMES: [&str; 4] = ["compiled", "focused", "shrunk", "linearized"];
+    let mut direct: Vec<Option<String>> = Vec::new();
+    for k in 0..4 {
+        let mut d = driver::Driver::new();
+        direct.push(stage(&mut d, k));
+    }
+    for earlier in 0..4 {
+        for wanted in 0..4 {
+            if earlier == wanted {
+                continue;
+            }
+            let mut d = driver::Driver::new();
+            let _ = stage(&mut d, earlier);
+            let got = stage(&mut d, wanted);
+            acc.count("driver_request_orders_compared");
+            // label numbering is process-global: compare modulo the numbering of generated names
+            let same = match (&got, &direct[wanted]) {
+                (Some(a), Some(b)) => normalize_labels(a) == normalize_labels(b),
+                (None, None) => true,
+                _ => false,
+            };
+            if !same {
+                let d = match (&got, &direct[wanted]) {
+                    (Some(a), Some(b)) => first_diff(&normalize_labels(a), &normalize_labels(b)),
+                    _ => "stage fails in one order and succeeds in the other".into(),
+                };
+                acc.violation(
+                    format!("C17:driver-order:{}", NAMES[wanted]),
+                    format!("the {} program of a file differs when the {} program was requested first from the same driver: {d}", NAMES[wanted], NAMES[earlier]),
+                    J::obj().with("kind", J::s("determinism")).with("src", J::s(src)).with("detail", J::s(d)).with("origin", J::s(origin)),
+                );
+                return false;
+            }
+        }
+    }
     true
 }
 
@@ -261,6 +318,28 @@ fn judge_cli(acc: &mut Acc, src: &str, origin: &str) {
             format!("two runs of scc codegen --print-ir in fresh processes produce different files (first difference: {which})"),
             J::obj().with("kind", J::s("determinism-cli")).with("src", J::s(src)).with("origin", J::s(origin)).with("file", J::s(which)),
         );
+    }
+    // the same stage asked for through another command (another order of requests to the driver)
+    // must give the same file: `scc compile|focus|shrink|linearize` vs `scc codegen --print-ir`
+    let d = base.join("stages");
+    let _ = std::fs::remove_dir_all(&d);
+    let _ = std::fs::create_dir_all(&d);
+    let _ = std::fs::write(d.join("p.sc"), src);
+    for (cmd, dir) in [("linearize", "linearized"), ("shrink", "shrunk"), ("focus", "focused"), ("compile", "compiled")] {
+        let o = Command::new(&bin).current_dir(&d).env("PATH", format!("{}:/usr/bin:/bin", stub.display())).args([cmd, "p.sc"]).output();
+        if o.is_err() {
+            continue;
+        }
+        let key = format!("target_scc/{dir}/p.txt");
+        let (Some(a), Ok(b)) = (snapshots[0].get(&key), std::fs::read(d.join(&key))) else { continue };
+        acc.count("cli_stage_commands_compared");
+        if *a != b {
+            acc.violation(
+                format!("C17:cli-stage:{dir}"),
+                format!("scc {cmd} and scc codegen --print-ir write different {dir} programs for the same source: {}", first_diff(&String::from_utf8_lossy(a), &String::from_utf8_lossy(&b))),
+                J::obj().with("kind", J::s("determinism-cli")).with("src", J::s(src)).with("origin", J::s(origin)).with("file", J::s(key)),
+            );
+        }
     }
     let _ = std::fs::remove_dir_all(&base);
 }
